@@ -16,7 +16,7 @@ from vf import canon as C
 from vf import gen
 from vf.common import safe_repr
 from vt import flags as vflags
-from vt import kinds, rec, ser as vser, sigs, tags as vtags
+from vt import dup1, dup2, kinds, rec, ser as vser, sigs, tags as vtags
 
 ID = 'C09'
 LEVEL = 'exploration'
@@ -46,7 +46,8 @@ MINIMUMS = {
 
 FNS = [kinds.node, kinds.node2, kinds.posnode, kinds.two, kinds.three, kinds.Base, kinds.Mid,
        kinds.target3, kinds.PosInit, kinds.tagged_fn, kinds.tagged_pos_fn, kinds.DC, kinds.DCTagged,
-       kinds.WithMethods.make, kinds.WithMethods.smake, sigs.g_a1_b2_va_k_vk, sigs.g_ab_c_va]
+       kinds.WithMethods.make, kinds.WithMethods.smake, sigs.g_a1_b2_va_k_vk, sigs.g_ab_c_va,
+       dup1.same, dup2.same, dup1.same, dup2.same]     # same leaf name in two modules
 
 
 def plan(tier):
@@ -238,6 +239,18 @@ def symbols_in(value):
     elif isinstance(x, slice):
       stack.extend([x.start, x.stop, x.step])
   return out
+
+
+def pyref_of(sobj):
+  """(module, symbol) under which the serializer refers to a symbol object."""
+  import inspect
+  if isinstance(sobj, kinds.enum.Enum):
+    return (type(sobj).__module__, type(sobj).__qualname__ + '.' + sobj.name)
+  mod = inspect.getmodule(sobj)
+  qn = getattr(sobj, '__qualname__', None)
+  if mod is None or qn is None:
+    return None
+  return (mod.__name__, qn)
 
 
 def reject_constant(name):
@@ -503,6 +516,17 @@ def check_policy_use(policy, imported, loaded, acc, witness, mode):
         acc.violation(f'symbol-not-approved-by-policy:{mode}',
                       f'{safe_repr(s, 80)} is in the loaded value but allows_value never approved it',
                       witness())
+        break
+    # ... and its (module, symbol) was put to allows_import of THIS policy and approved
+    asked = {(m, sy) for m, sy, a in policy.import_q if a}
+    for sobj in symbols_in(loaded):
+      ref = pyref_of(sobj)
+      if ref is None:
+        continue
+      if ref not in asked:
+        acc.violation(f'symbol-resolved-without-allows_import:{mode}',
+                      f'{ref[0]}.{ref[1]} is in the loaded value but allows_import({ref[0]!r}, '
+                      f'{ref[1]!r}) was never asked / never approved by the supplied policy', witness())
         break
     rids = {id(v) for v in refused_values}
     for s in symbols_in(loaded):
